@@ -169,10 +169,14 @@ def run(replay=None):
                  shortened_contexts=0)
     corr_bad = []
     samples = []
+    oof_cids = set(cid_ for (cid_, _), ls in M.items() if "OOF" in ls)
     for p in progs:
         if p.cid in skipped:
             continue
         stats["programs"] += 1
+        if p.cid in oof_cids:
+            ck.violation("correspondence", "the model's optimiser ran out of level fuel (Tree/Optimize.v optimized_full)",
+                         {"program": p.text(), "theorem_or_stage": "correspondence:level-fuel"}, no_input=True)
         stats["remap_steps"] += sum(1 for s in p.steps if s[0] == "remap")
 
         def get(D, key):
@@ -184,14 +188,11 @@ def run(replay=None):
         if ok_d:
             if hf is not None and (hf == mf or (mf and exprlib.dags_equal_mod_sharing(hf[2:], mf[2:]))):
                 stats["flatten_exact"] += 1
-            elif any(st[0] == "opt" for st in p.steps):
-                # KNOWN MODEL LIMITATION: optimising a remap over an already materialised transformed oracle.
-                # TransformedOracleClause::optimized flattens the (lazy) coordinate remaps through
-                # optimized_helper; Tree/Optimize.v's NOracleT case optimises the coordinate nodes without
-                # flattening them first, so the model's DAG keeps R nodes there.  Values agree (the model's
-                # evaluator optimises every coordinate tree, as Deck::Deck does); only this DAG-shape stage
-                # is skipped for such programs.
-                stats["flatten_skipped_opt_over_T"] = stats.get("flatten_skipped_opt_over_T", 0) + 1
+            elif any(st[0] == "opt" for st in p.steps) and hf and mf and exprlib.ac_equal_tol(hf[2:], mf[2:], ulps=64):
+                # an optimise step in the chain: TransformedOracleClause::optimized flattens and optimises the
+                # coordinate trees (Tree/Optimize.v's NOracleT case, level-fuelled), and the optimiser orders
+                # commutative operands by address - compared modulo associativity / commutativity
+                stats["flatten_ac_equal"] = stats.get("flatten_ac_equal", 0) + 1
             else:
                 corr_bad.append((p, "flatten", hf, mf))
             hk = [l for l in H.get((p.cid, p.q["deck"]), []) if l.startswith("K ")]
